@@ -326,7 +326,7 @@ func ruleC17EntryPerSuccess(c *Ctx) {
 			}
 			hasEncrypt := false
 			allInstrs(w, func(j ssa.Instruction) {
-				if cc := callOf(j); cc != nil && (strings.HasPrefix(methodNameOf(cc), "Encrypt")) {
+				if cc := callOf(j); cc != nil && (strings.HasPrefix(strings.ToLower(methodNameOf(cc)), "encrypt")) {
 					hasEncrypt = true
 				}
 			})
@@ -353,7 +353,7 @@ func ruleC17EntryPerSuccess(c *Ctx) {
 			sendOK := false
 			allInstrs(w, func(j ssa.Instruction) {
 				cc := callOf(j)
-				if cc == nil || !strings.HasPrefix(methodNameOf(cc), "Encrypt") {
+				if cc == nil || !strings.HasPrefix(strings.ToLower(methodNameOf(cc)), "encrypt") {
 					return
 				}
 				if _, isCall := j.(*ssa.Call); !isCall {
